@@ -30,13 +30,16 @@ struct IoCfg {
     mouse: bool,
     ext_mask: u16,
     ext_val: u16,
+    /// AY *sound* switched off in the settings (the chip's ports must work all the same)
+    ay_off: bool,
 }
 
 impl IoCfg {
     fn name(&self) -> String {
         format!(
-            "{}{}{}{}",
+            "{}{}{}{}{}",
             if self.m128 { "128k" } else { "48k" },
+            if self.ay_off { "+aysound-off" } else { "" },
             if self.kempston { "+kempston" } else { "" },
             if self.mouse { "+mouse" } else { "" },
             if self.ext_mask != 0 || self.ext_val == 0 {
@@ -80,7 +83,7 @@ fn prepared(cfg: &IoCfg) -> Emu {
     let mut c = Cfg::new(cfg.m128);
     c.kempston = cfg.kempston;
     c.mouse = cfg.mouse;
-    c.ay = true;
+    c.ay = !cfg.ay_off;
     c.sound = true;
     let mut e = emu(&c);
     if cfg.has_ext() {
@@ -190,7 +193,7 @@ fn record(
         Some(g) => acceptable & (1 << g) != 0,
         None => false,
     };
-    let case = format!("{} {} {} {:04x}", if cfg.m128 { 128 } else { 48 }, cfg_text(cfg), dir, port);
+    let case = format!("{} {} {} {:04x}{}", if cfg.m128 { 128 } else { 48 }, cfg_text(cfg), dir, port, if cfg.ay_off { " ayoff" } else { "" });
     if !spec_ok {
         let want: Vec<&str> = (0..names.len()).filter(|i| acceptable & (1 << i) != 0).map(|i| names[i]).collect();
         rep.violation(Violation {
@@ -293,10 +296,14 @@ fn configs(o: &Opts) -> Vec<IoCfg> {
         for kempston in [false, true] {
             for mouse in [false, true] {
                 for (em, ev) in &exts {
-                    v.push(IoCfg { m128, kempston, mouse, ext_mask: *em, ext_val: *ev });
+                    v.push(IoCfg { m128, kempston, mouse, ext_mask: *em, ext_val: *ev, ay_off: false });
                 }
             }
         }
+    }
+    // the AY chip's ports do not depend on whether its *sound* is mixed in
+    for m128 in [false, true] {
+        v.push(IoCfg { m128, kempston: false, mouse: false, ext_mask: 0, ext_val: 1, ay_off: true });
     }
     v
 }
@@ -400,13 +407,14 @@ A15 A14 A10 A8 A7-A5 A1 A0)".into();
         let t: Vec<&str> = text.split_whitespace().collect();
         rep.exhaustive = false;
         rep.sample(J::s(text.clone()));
-        if t.len() == 7 {
+        if t.len() == 7 || t.len() == 8 {
             let cfg = IoCfg {
                 m128: t[0] == "128",
                 kempston: t[1] == "1",
                 mouse: t[2] == "1",
                 ext_mask: u16::from_str_radix(t[3], 16).unwrap_or(0),
                 ext_val: u16::from_str_radix(t[4], 16).unwrap_or(1),
+                ay_off: t.get(7) == Some(&"ayoff"),
             };
             let port = u16::from_str_radix(t[6], 16).unwrap_or(0);
             model.ask(&format!("new {}", t[0]));
